@@ -18,9 +18,10 @@ from props import _ftp as F
 from props import _multiexact as MX
 from props import _ftpexact as FX
 from props import _mountexact as MNT
+from props import _basewalk as BW
 
 EXTRA_PROOF_MODULES = ("FsProofs.MemRefines", "FsProofs.WrapRefines", "FsProofs.OsRefines", "FsProofs.HandleLaws",
-                       "FsProofs.MultiRefines", "FsProofs.FtpRefines", "FsProofs.MountRefines")
+                       "FsProofs.MultiRefines", "FsProofs.FtpRefines", "FsProofs.MountRefines", "FsProofs.BaseWalkLaws")
 
 QUERY_ON_INVALID_OK = {"exists", "isdir", "isfile"}
 
@@ -159,6 +160,9 @@ def run(rep, tier, seed, deep=False):
         # table) and FsModel.OsSub: exact error class, exact tree up to entry order; the POSIX model
         # itself is compared with the kernel, the extracted table with the live one
         X.run_os_exact(rep, steps, drv)
+        # `FS.removetree` (inherited by MultiFS / MountFS / FTPFS) normalises its path without validating it
+        # (open finding; FsProofs/BaseWalkLaws.lean removetree_nul_counterexample)
+        BW.removetree_unvalidated_regression(rep)
         # file objects kept open ACROSS filesystem calls, several handles on one file, files removed / moved /
         # overwritten while open: whole histories against FsModel.Handles (FsProofs/HandleLaws.lean)
         HD.check_handles(rep, drv, vlib.rng_for(seed, "c01-handles"), tier)
